@@ -385,7 +385,7 @@ def Namespace.delete (lower : Rune → Rune) (ns : Namespace) (db br us ho : Lis
   | none => ns
   | some i => swapRemove ns i
 
-def indexed (xs : List (List Int)) : List (Nat × List Int) := (List.range xs.length).zip xs
+def indexed (xs : List (List Int)) : List (Nat × List Int) := xs.zipIdx.map (fun pi => (pi.2, pi.1))
 
 /-- `filterBranches` etc.: the expressions at the given collection indexes, in that order -/
 def filterExprs (exprs : List (Nat × List Int)) (idxs : List Nat) : List (Nat × List Int) :=
